@@ -38,6 +38,10 @@ def parseKeys (s : String) : Option (List (List UInt8)) :=
 structure MState where
   h : Hist := ⟨.generic 1, 1, .roundRobin, [], [], [], 0, 0, [], false⟩
   bad : Bool := false
+  /-- COMMITs received since the seen list was last handed to the progress tracker -/
+  pendingSeen : Nat := 0
+  /-- a batch went to a worker while `pendingSeen > 0` (contract E3 of the ledger: seen before dispatch) -/
+  seenLate : Bool := false
 deriving Inhabited
 
 def parseKindSpec (s : String) : Option KindSpec :=
@@ -58,7 +62,8 @@ def parseKindSpec (s : String) : Option KindSpec :=
 
 def addEv (st : MState) (tok : String) : MState :=
   let h := st.h
-  if tok == "-" || tok.startsWith "valid=" || tok.startsWith "times=" || tok.startsWith "seen[" then st
+  if tok.startsWith "seen[" then { st with pendingSeen := 0 }
+  else if tok == "-" || tok.startsWith "valid=" || tok.startsWith "times=" then st
   else if tok == "fatal" then { st with h := { h with fatal := true } }
   else if tok == "stat:dropped_too_big" then { st with h := { h with tooBigStats := h.tooBigStats + 1 } }
   else if tok == "stat:dropped_msg_invalid" then { st with h := { h with invalidStats := h.invalidStats + 1 } }
@@ -75,7 +80,8 @@ def addEv (st : MState) (tok : String) : MState :=
         let keys := match rest with
           | [k] => parseKeys k
           | _ => none
-        { st with h := { h with dispatched := h.dispatched ++ [⟨w, pk, ids, txns, bytes, keys⟩] } }
+        { st with h := { h with dispatched := h.dispatched ++ [⟨w, pk, ids, txns, bytes, keys⟩] },
+                  seenLate := st.seenLate || decide (st.pendingSeen > 0) }
       | _, _, _, _, _ => { st with bad := true }
     | _ => { st with bad := true }
   else { st with bad := true }
@@ -99,7 +105,8 @@ def handle (st : MState) (args : List String) : MState × String :=
     | _, _ => (st, "bad-op")
   | "msg" :: rest =>
     match Driver.Batcher.parseMsg rest with
-    | some m => ({ st with h := { st.h with msgs := st.h.msgs ++ [m] } }, "ok")
+    | some m => ({ st with h := { st.h with msgs := st.h.msgs ++ [m] },
+                           pendingSeen := if m.op = .commit then st.pendingSeen + 1 else st.pendingSeen }, "ok")
     | none => (st, "bad-op")
   | "evs" :: toks => (toks.foldl addEv st, "ok")
   | ["open", s] =>
@@ -109,7 +116,7 @@ def handle (st : MState) (args : List String) : MState × String :=
   | ["verdict"] =>
     let h := st.h
     if st.bad then (st, "bad-op") else
-    (st, s!"fatal={h.fatal} once={exactlyOnce h} txns={txnsExact h && txnsCoverPayload h} routing={routingOk h} single={singleKey h} kkeys={kinesisKeysOk h} limits={limitsOk h} dropstats={dropStatsOk h}")
+    (st, s!"fatal={h.fatal} once={exactlyOnce h} txns={txnsExact h && txnsCoverPayload h} routing={routingOk h} single={singleKey h} kkeys={kinesisKeysOk h} limits={limitsOk h} dropstats={dropStatsOk h} seenfirst={!st.seenLate}")
   | _ => (st, "bad-op")
 
 end PgBifrost.Driver.BatcherMon
